@@ -1,1 +1,657 @@
 // Kani contract harnesses for /repo/arrow-buffer/src/buffer/mutable.rs (child module: sees private items via super::)
+//
+// C16 (sequential half) for the growable buffer: contents are preserved across every reallocation,
+// len <= capacity always, capacity stays a multiple of 64 for buffers created by new/with_capacity,
+// nothing is written outside the allocation and the allocation is freed exactly once. No harness
+// here calls mem::forget: CBMC's out-of-bounds / use-after-free / double-free / invalid-free checks
+// are part of each obligation.
+// GRID RULE: every quantity that sizes an allocation is a concrete grid point (const generic), chosen
+// around the 64-byte rounding boundary {0,1,3,63,64,65,70,130}; all byte contents are symbolic.
+// (collect_bool / from_trusted_len_iter_bool are specified elsewhere.)
+use super::*;
+
+/// `view` shows exactly `data[off..off+len]` (length compared exactly, contents at one
+/// nondeterministically chosen position, i.e. at every position)
+fn same(view: &[u8], data: &[u8], off: usize, len: usize) -> bool {
+    if view.len() != len {
+        return false;
+    }
+    let i: usize = kani::any();
+    if i < len { view[i] == data[off + i] } else { true }
+}
+/// every byte of `view[from..to]` equals `v`
+fn all_eq(view: &[u8], from: usize, to: usize, v: u8) -> bool {
+    let i: usize = kani::any();
+    if from <= i && i < to { view[i] == v } else { true }
+}
+fn round64(n: usize) -> usize {
+    (n + 63) / 64 * 64
+}
+/// representation invariant of a buffer that was created by new / with_capacity
+fn inv(m: &MutableBuffer) -> bool {
+    m.len() <= m.capacity() && m.capacity() % 64 == 0 && m.is_empty() == (m.len() == 0)
+}
+/// documented growth contract of `reserve(additional)` given the state before the call:
+/// reallocates iff len + additional > capacity; afterwards capacity >= len + additional; a
+/// reallocation at least doubles (amortised growth) and keeps the 64-byte rounding.
+fn grown(m: &MutableBuffer, old_cap: usize, old_ptr: *const u8, required: usize) -> bool {
+    if required <= old_cap {
+        m.capacity() == old_cap && m.as_ptr() == old_ptr
+    } else {
+        m.capacity() >= required && m.capacity() >= 2 * old_cap && m.capacity() % 64 == 0
+    }
+}
+
+// Contract (C16): `new(C)` / `with_capacity(C)` give an empty buffer whose capacity is C rounded up
+// to the next multiple of 64 (0 stays 0, no allocation); `from_len_zeroed(C)` gives C zero bytes
+// with capacity >= C; `new_null(BITS)` gives ceil(BITS/8) zero bytes; `Default` is empty. All are
+// dropped (freed once; the zero-capacity ones free nothing).
+fn mb_create_point<const C: usize>() {
+    let m = if kani::any() { MutableBuffer::new(C) } else { MutableBuffer::with_capacity(C) };
+    assert!(m.len() == 0 && m.is_empty() && m.capacity() == round64(C) && inv(&m));
+    assert!(m.as_slice().len() == 0);
+    let z = MutableBuffer::from_len_zeroed(C);
+    assert!(z.len() == C && z.capacity() >= C && all_eq(z.as_slice(), 0, C, 0) && z.as_slice().len() == C);
+    let nb = MutableBuffer::new_null(C);
+    assert!(nb.len() == (C + 7) / 8 && all_eq(nb.as_slice(), 0, (C + 7) / 8, 0));
+    let d = MutableBuffer::default();
+    assert!(d.len() == 0 && d.capacity() == 0);
+    kani::cover!(true);
+    if kani::any() {
+        drop(z);
+        drop(m);
+    }
+}
+macro_rules! mb_create_unit {
+    ($name:ident, $c:expr) => {
+        #[kani::proof]
+        #[kani::unwind(4)]
+        fn $name() {
+            mb_create_point::<$c>()
+        }
+    };
+}
+// @unit name=mb_create_0 props=C16 kind=bounded bound=size_0 fns=MutableBuffer::new,MutableBuffer::with_capacity,MutableBuffer::try_with_capacity,MutableBuffer::from_len_zeroed,MutableBuffer::new_null,MutableBuffer::default,MutableBuffer::drop tier=quick mem=2 timeout=120
+mb_create_unit!(mb_create_0, 0);
+// @unit name=mb_create_1 props=C16 kind=bounded bound=size_1 fns=MutableBuffer::new,MutableBuffer::with_capacity,MutableBuffer::try_with_capacity,MutableBuffer::from_len_zeroed,MutableBuffer::new_null,MutableBuffer::drop tier=quick mem=2 timeout=120
+mb_create_unit!(mb_create_1, 1);
+// @unit name=mb_create_64 props=C16 kind=bounded bound=size_64 fns=MutableBuffer::new,MutableBuffer::with_capacity,MutableBuffer::try_with_capacity,MutableBuffer::from_len_zeroed,MutableBuffer::new_null,MutableBuffer::drop tier=quick mem=2 timeout=120
+mb_create_unit!(mb_create_64, 64);
+// @unit name=mb_create_65 props=C16 kind=bounded bound=size_65 fns=MutableBuffer::new,MutableBuffer::with_capacity,MutableBuffer::try_with_capacity,MutableBuffer::from_len_zeroed,MutableBuffer::new_null,MutableBuffer::drop tier=quick mem=2 timeout=120
+mb_create_unit!(mb_create_65, 65);
+// @unit name=mb_create_130 props=C16 kind=bounded bound=size_130 fns=MutableBuffer::new,MutableBuffer::with_capacity,MutableBuffer::try_with_capacity,MutableBuffer::from_len_zeroed,MutableBuffer::new_null,MutableBuffer::drop tier=quick mem=2 timeout=120
+mb_create_unit!(mb_create_130, 130);
+
+// Contract (C16): with_capacity(C0); extend_from_slice(a[A]); extend_from_slice(b[B]); into Buffer.
+// After each step: len is the sum so far, contents are the concatenation so far (bytes written
+// earlier survive the reallocation), inv (len <= capacity, capacity % 64 == 0), and the growth
+// contract of reserve holds. The final Buffer shows a ++ b, has the same capacity, and converts
+// back (into_mutable) to an equal MutableBuffer which is then dropped.
+fn mb_extend_point<const C0: usize, const A: usize, const B: usize>() {
+    let a: [u8; A] = kani::any();
+    let b: [u8; B] = kani::any();
+    let mut m = MutableBuffer::with_capacity(C0);
+    let (c0, p0) = (m.capacity(), m.as_ptr());
+    m.extend_from_slice(&a);
+    assert!(m.len() == A && inv(&m) && grown(&m, c0, p0, A) && same(m.as_slice(), &a, 0, A));
+    let (c1, p1) = (m.capacity(), m.as_ptr());
+    m.extend_from_slice(&b);
+    assert!(m.len() == A + B && inv(&m) && grown(&m, c1, p1, A + B));
+    let i: usize = kani::any();
+    kani::assume(i < A + B);
+    let want = if i < A { a[i] } else { b[i - A] };
+    assert!(m.as_slice()[i] == want);
+    let c2 = m.capacity();
+    let buf: Buffer = m.into();
+    assert!(buf.len() == A + B && buf.capacity() == c2 && buf.as_slice()[i] == want && buf.ptr_offset() == 0);
+    let m2 = buf.into_mutable().unwrap();
+    assert!(m2.len() == A + B && m2.capacity() == c2 && m2.as_slice()[i] == want);
+    kani::cover!(i < A);
+    kani::cover!(i >= A);
+}
+macro_rules! mb_extend_unit {
+    ($name:ident, $c0:expr, $a:expr, $b:expr) => {
+        #[kani::proof]
+        #[kani::unwind(4)]
+        fn $name() {
+            mb_extend_point::<$c0, $a, $b>()
+        }
+    };
+}
+// @unit name=mb_extend_0_3_70 props=C16 kind=bounded bound=cap0_ext3_ext70 fns=MutableBuffer::extend_from_slice,MutableBuffer::try_extend_from_slice,MutableBuffer::reserve,MutableBuffer::try_reserve,MutableBuffer::try_reallocate,MutableBuffer::into_buffer,MutableBuffer::as_slice,MutableBuffer::len,MutableBuffer::capacity tier=quick mem=2 timeout=200
+mb_extend_unit!(mb_extend_0_3_70, 0, 3, 70);
+// @unit name=mb_extend_0_64_1 props=C16 kind=bounded bound=cap0_ext64_ext1 fns=MutableBuffer::extend_from_slice,MutableBuffer::try_reserve,MutableBuffer::try_reallocate,MutableBuffer::into_buffer tier=quick mem=2 timeout=200
+mb_extend_unit!(mb_extend_0_64_1, 0, 64, 1);
+// @unit name=mb_extend_1_63_1 props=C16 kind=bounded bound=cap1_ext63_ext1 fns=MutableBuffer::extend_from_slice,MutableBuffer::try_reserve,MutableBuffer::try_reallocate,MutableBuffer::into_buffer tier=quick mem=2 timeout=200
+mb_extend_unit!(mb_extend_1_63_1, 1, 63, 1);
+// @unit name=mb_extend_64_65_64 props=C16 kind=bounded bound=cap64_ext65_ext64 fns=MutableBuffer::extend_from_slice,MutableBuffer::try_reserve,MutableBuffer::try_reallocate,MutableBuffer::into_buffer tier=quick mem=2 timeout=200
+mb_extend_unit!(mb_extend_64_65_64, 64, 65, 64);
+// @unit name=mb_extend_0_1_130 props=C16 kind=bounded bound=cap0_ext1_ext130 fns=MutableBuffer::extend_from_slice,MutableBuffer::try_reserve,MutableBuffer::try_reallocate,MutableBuffer::into_buffer tier=quick mem=2 timeout=200
+mb_extend_unit!(mb_extend_0_1_130, 0, 1, 130);
+
+// Contract (C16): extend_from_slice(a[A]) then resize(R, v) then truncate(T) then extend_zeros(Z):
+// resize to R > A appends R-A copies of v after the preserved prefix (reallocating if needed),
+// resize to R <= A keeps the first R bytes and never changes the capacity; truncate(T) sets
+// len = min(len, T) (no effect when T > len) without touching capacity or the surviving prefix;
+// extend_zeros(Z) appends Z zero bytes. inv after every step.
+fn mb_resize_point<const A: usize, const R: usize, const T: usize, const Z: usize>() {
+    let a: [u8; A] = kani::any();
+    let v: u8 = kani::any();
+    let mut m = MutableBuffer::new(0);
+    m.extend_from_slice(&a);
+    let (c1, p1) = (m.capacity(), m.as_ptr());
+    m.resize(R, v);
+    assert!(m.len() == R && inv(&m));
+    if R <= A {
+        assert!(m.capacity() == c1 && m.as_ptr() == p1 && same(m.as_slice(), &a, 0, R));
+    } else {
+        assert!(grown(&m, c1, p1, R) && same(&m.as_slice()[..A], &a, 0, A) && all_eq(m.as_slice(), A, R, v));
+    }
+    let keep = if R < A { R } else { A }; // bytes of `a` still visible
+    let c2 = m.capacity();
+    m.truncate(T);
+    let l3 = if T < R { T } else { R };
+    assert!(m.len() == l3 && m.capacity() == c2 && inv(&m));
+    let k3 = if keep < l3 { keep } else { l3 };
+    assert!(same(&m.as_slice()[..k3], &a, 0, k3) && all_eq(m.as_slice(), k3, l3, v));
+    let (c3, p3) = (m.capacity(), m.as_ptr());
+    m.extend_zeros(Z);
+    assert!(m.len() == l3 + Z && inv(&m) && grown(&m, c3, p3, l3 + Z));
+    assert!(same(&m.as_slice()[..k3], &a, 0, k3) && all_eq(m.as_slice(), k3, l3, v) && all_eq(m.as_slice(), l3, l3 + Z, 0));
+    m.clear();
+    assert!(m.len() == 0 && m.capacity() >= c3 && inv(&m));
+    kani::cover!(true);
+}
+macro_rules! mb_resize_unit {
+    ($name:ident, $a:expr, $r:expr, $t:expr, $z:expr) => {
+        #[kani::proof]
+        #[kani::unwind(4)]
+        fn $name() {
+            mb_resize_point::<$a, $r, $t, $z>()
+        }
+    };
+}
+// @unit name=mb_resize_3_70_65_1 props=C16 kind=bounded bound=ext3_resize70_truncate65_zeros1 fns=MutableBuffer::resize,MutableBuffer::try_resize,MutableBuffer::truncate,MutableBuffer::extend_zeros,MutableBuffer::try_extend_zeros,MutableBuffer::clear,MutableBuffer::try_reserve,MutableBuffer::try_reallocate tier=quick mem=2 timeout=200
+mb_resize_unit!(mb_resize_3_70_65_1, 3, 70, 65, 1);
+// @unit name=mb_resize_70_3_64_130 props=C16 kind=bounded bound=ext70_resize3_truncate64_zeros130 fns=MutableBuffer::resize,MutableBuffer::try_resize,MutableBuffer::truncate,MutableBuffer::extend_zeros,MutableBuffer::clear,MutableBuffer::try_reallocate tier=quick mem=2 timeout=200
+mb_resize_unit!(mb_resize_70_3_64_130, 70, 3, 64, 130);
+// @unit name=mb_resize_64_65_0_63 props=C16 kind=bounded bound=ext64_resize65_truncate0_zeros63 fns=MutableBuffer::resize,MutableBuffer::try_resize,MutableBuffer::truncate,MutableBuffer::extend_zeros,MutableBuffer::clear,MutableBuffer::try_reallocate tier=quick mem=2 timeout=200
+mb_resize_unit!(mb_resize_64_65_0_63, 64, 65, 0, 63);
+// @unit name=mb_resize_0_0_1_0 props=C16 kind=bounded bound=ext0_resize0_truncate1_zeros0 fns=MutableBuffer::resize,MutableBuffer::try_resize,MutableBuffer::truncate,MutableBuffer::extend_zeros,MutableBuffer::clear tier=quick mem=2 timeout=200
+mb_resize_unit!(mb_resize_0_0_1_0, 0, 0, 1, 0);
+// @unit name=mb_resize_5_5_5_64 props=C16 kind=bounded bound=ext5_resize5_truncate5_zeros64 fns=MutableBuffer::resize,MutableBuffer::try_resize,MutableBuffer::truncate,MutableBuffer::extend_zeros,MutableBuffer::clear,MutableBuffer::try_reallocate tier=quick mem=2 timeout=200
+mb_resize_unit!(mb_resize_5_5_5_64, 5, 5, 5, 64);
+
+// Contract (C16): `push` of u8 / i32 / i64 values appends the value's native-endian bytes, also
+// across the 64-byte capacity boundary (P prefix bytes then u8, i64, i32: with P = 58 the i64
+// straddles the first reallocation); prefix and earlier pushes are preserved; `reserve(additional)`
+// follows the growth contract and never changes len or contents; `typed_data` reads pushed values back.
+fn mb_push_point<const P: usize, const ADD: usize>() {
+    let a: [u8; P] = kani::any();
+    let (x, y, z): (u8, i64, i32) = (kani::any(), kani::any(), kani::any());
+    let mut m = MutableBuffer::new(P);
+    m.extend_from_slice(&a);
+    let (c0, p0) = (m.capacity(), m.as_ptr());
+    m.push(x);
+    assert!(m.len() == P + 1 && inv(&m) && grown(&m, c0, p0, P + 1));
+    let (c1, p1) = (m.capacity(), m.as_ptr());
+    m.push(y);
+    assert!(m.len() == P + 9 && inv(&m) && grown(&m, c1, p1, P + 9));
+    let (c2, p2) = (m.capacity(), m.as_ptr());
+    m.push(z);
+    assert!(m.len() == P + 13 && inv(&m) && grown(&m, c2, p2, P + 13));
+    let (c3, p3) = (m.capacity(), m.as_ptr());
+    m.reserve(ADD);
+    assert!(m.len() == P + 13 && inv(&m) && grown(&m, c3, p3, P + 13 + ADD));
+    let s = m.as_slice();
+    assert!(same(&s[..P], &a, 0, P));
+    assert!(s[P] == x);
+    assert!(same(&s[P + 1..P + 9], &y.to_ne_bytes(), 0, 8));
+    assert!(same(&s[P + 9..P + 13], &z.to_ne_bytes(), 0, 4));
+    kani::cover!(c1 != c2 || c0 != c1 || c2 != c3); // some push reallocated
+    kani::cover!(m.capacity() != c3 || ADD < 64); // the large reserve reallocated
+}
+macro_rules! mb_push_unit {
+    ($name:ident, $p:expr, $add:expr) => {
+        #[kani::proof]
+        #[kani::unwind(4)]
+        fn $name() {
+            mb_push_point::<$p, $add>()
+        }
+    };
+}
+// @unit name=mb_push_58_200 props=C16 kind=bounded bound=prefix58_push_u8_i64_i32_reserve200 fns=MutableBuffer::push,MutableBuffer::reserve,MutableBuffer::try_reserve,MutableBuffer::try_reallocate tier=quick mem=2 timeout=200
+mb_push_unit!(mb_push_58_200, 58, 200);
+// @unit name=mb_push_63_1 props=C16 kind=bounded bound=prefix63_push_u8_i64_i32_reserve1 fns=MutableBuffer::push,MutableBuffer::reserve,MutableBuffer::try_reserve,MutableBuffer::try_reallocate tier=quick mem=2 timeout=200
+mb_push_unit!(mb_push_63_1, 63, 1);
+
+// Contract (C16): after pushing three i32 values into an empty buffer, `typed_data::<i32>` and
+// `typed_data_mut::<i32>` view exactly those values; a write through typed_data_mut changes exactly
+// that element.
+// @unit name=mb_typed_data props=C16,C01 kind=bounded bound=3_i32 fns=MutableBuffer::typed_data,MutableBuffer::typed_data_mut,MutableBuffer::push tier=quick mem=2 timeout=120
+#[kani::proof]
+#[kani::unwind(5)]
+fn mb_typed_data() {
+    let v: [i32; 3] = kani::any();
+    let mut m = MutableBuffer::new(0);
+    m.push(v[0]);
+    m.push(v[1]);
+    m.push(v[2]);
+    let j0: usize = kani::any();
+    kani::assume(j0 < 3);
+    assert!(m.typed_data::<i32>().len() == 3 && m.typed_data::<i32>()[j0] == v[j0]);
+    let (k, w): (usize, i32) = (kani::any(), kani::any());
+    kani::assume(k < 3);
+    m.typed_data_mut::<i32>()[k] = w;
+    let t = m.typed_data::<i32>();
+    let j: usize = kani::any();
+    kani::assume(j < 3);
+    assert!(t.len() == 3 && t[j] == if j == k { w } else { v[j] });
+    kani::cover!(j != k);
+}
+
+// Contract (C16/C09): `set_null_bits(start, count)` with ARBITRARY usize arguments on a buffer of
+// len L = 10, capacity 64, either panics (= rejects) or — only if start + count <= capacity without
+// wrap-around — zeroes exactly the bytes [start, start+count) and leaves len, capacity and every
+// other visible byte unchanged (no write outside the allocation: CBMC bounds checks).
+// `with_bitset(end, val)`: rejects unless end <= capacity; sets len = end and bytes [0,end) to 0x00/0xFF.
+// @unit name=mb_set_null_bits props=C16,C09 kind=bounded bound=len10_cap64 fns=MutableBuffer::set_null_bits,MutableBuffer::with_bitset mayreject=1 tier=quick mem=2 timeout=200
+#[kani::proof]
+#[kani::unwind(4)]
+fn mb_set_null_bits() {
+    const L: usize = 10;
+    let a: [u8; L] = kani::any();
+    let mut m = MutableBuffer::new(L);
+    m.extend_from_slice(&a);
+    let (start, count): (usize, usize) = (kani::any(), kani::any());
+    if kani::any() {
+        m.set_null_bits(start, count);
+        assert!(start as u128 + count as u128 <= 64);
+        assert!(m.len() == L && m.capacity() == 64);
+        let i: usize = kani::any();
+        kani::assume(i < L);
+        assert!(m.as_slice()[i] == if start <= i && i < start + count { 0 } else { a[i] });
+        kani::cover!(start + count == 64 && count > 0);
+        kani::cover!(start < L && start + count < L && count > 0);
+    } else {
+        let val: bool = kani::any();
+        let m2 = m.with_bitset(start, val);
+        assert!(start <= 64 && m2.len() == start && m2.capacity() == 64);
+        assert!(all_eq(m2.as_slice(), 0, start, if val { 0xff } else { 0 }));
+        kani::cover!(start == 64);
+        kani::cover!(start == 0);
+    }
+}
+
+// Contract (C16): `set_null_bits` / `with_bitset` accept every in-capacity range (no over-rejection,
+// not may-reject): start + count <= capacity never panics.
+// @unit name=mb_set_null_bits_accepts props=C16 kind=bounded bound=len10_cap64 fns=MutableBuffer::set_null_bits,MutableBuffer::with_bitset tier=quick mem=2 timeout=200
+#[kani::proof]
+#[kani::unwind(4)]
+fn mb_set_null_bits_accepts() {
+    let a: [u8; 10] = kani::any();
+    let mut m = MutableBuffer::new(10);
+    m.extend_from_slice(&a);
+    let (start, count): (usize, usize) = (kani::any(), kani::any());
+    kani::assume(start <= 64 && count <= 64 - start);
+    m.set_null_bits(start, count);
+    let m2 = m.with_bitset(start, true);
+    assert!(m2.len() == start);
+    kani::cover!(start + count == 64 && count > 0);
+}
+
+// Contract (C16): `MutableBuffer::from(Vec<i32>)` takes over the Vec's allocation without copying
+// (len = 4*len, capacity = 4*capacity, same bytes); it can then grow (reallocation with the Vec's
+// own layout alignment, contents preserved) and is freed exactly once, by the right deallocation.
+// `shrink_to_fit` reduces capacity to len rounded up to 64 (never below len) and preserves contents.
+// @unit name=mb_from_vec_grow_shrink props=C16 kind=bounded bound=Vec<i32>_len3_cap5_then_ext70_then_truncate3 fns=MutableBuffer::from,MutableBuffer::extend_from_slice,MutableBuffer::try_reallocate,MutableBuffer::shrink_to_fit,MutableBuffer::try_shrink_to_fit,MutableBuffer::truncate,MutableBuffer::drop tier=quick mem=2 timeout=200
+#[kani::proof]
+#[kani::unwind(6)]
+fn mb_from_vec_grow_shrink() {
+    let d: [i32; 3] = kani::any();
+    let b: [u8; 70] = kani::any();
+    let mut v: Vec<i32> = Vec::with_capacity(5);
+    v.extend_from_slice(&d);
+    let cap = v.capacity();
+    let vp = v.as_ptr() as *const u8;
+    let mut m = MutableBuffer::from(v);
+    assert!(m.len() == 12 && m.capacity() == 4 * cap && m.as_ptr() == vp);
+    let j0: usize = kani::any();
+    kani::assume(j0 < 3);
+    assert!(m.typed_data::<i32>().len() == 3 && m.typed_data::<i32>()[j0] == d[j0]);
+    if kani::any() {
+        return; // dropped as is: frees the Vec's allocation once
+    }
+    m.extend_from_slice(&b);
+    assert!(m.len() == 82 && m.capacity() >= 82);
+    assert!(same(&m.as_slice()[12..], &b, 0, 70));
+    let i: usize = kani::any();
+    kani::assume(i < 3);
+    assert!(m.as_slice()[4 * i..4 * i + 4] == d[i].to_ne_bytes());
+    let before = m.capacity();
+    m.truncate(3);
+    m.shrink_to_fit();
+    assert!(m.len() == 3 && m.capacity() == 64 && m.capacity() <= before);
+    assert!(same(m.as_slice(), &d[0].to_ne_bytes(), 0, 3));
+    kani::cover!(before > 64);
+}
+
+// Contract (C16): `repeat_slice_n_times(s, n)` appends n copies of s (doubling copy strategy) after
+// the existing prefix, which is preserved; n = 0 or an empty slice appends nothing.
+fn mb_repeat_point<const P: usize, const S: usize, const N: usize>() {
+    let a: [u8; P] = kani::any();
+    let s: [u8; S] = kani::any();
+    let mut m = MutableBuffer::new(0);
+    m.extend_from_slice(&a);
+    m.repeat_slice_n_times(&s, N);
+    assert!(m.len() == P + S * N && inv(&m));
+    let i: usize = kani::any();
+    kani::assume(i < P + S * N);
+    assert!(m.as_slice()[i] == if i < P { a[i] } else { s[(i - P) % S] });
+    kani::cover!(i >= P);
+    kani::cover!(i < P);
+}
+macro_rules! mb_repeat_unit {
+    ($name:ident, $p:expr, $s:expr, $n:expr) => {
+        #[kani::proof]
+        #[kani::unwind(8)]
+        fn $name() {
+            mb_repeat_point::<$p, $s, $n>()
+        }
+    };
+}
+// @unit name=mb_repeat_2_3_5 props=C16 kind=bounded bound=prefix2_slice3_times5 fns=MutableBuffer::repeat_slice_n_times,MutableBuffer::try_repeat_slice_n_times tier=quick mem=2 timeout=200
+mb_repeat_unit!(mb_repeat_2_3_5, 2, 3, 5);
+// @unit name=mb_repeat_1_9_8 props=C16 kind=bounded bound=prefix1_slice9_times8 fns=MutableBuffer::repeat_slice_n_times,MutableBuffer::try_repeat_slice_n_times tier=quick mem=2 timeout=200
+mb_repeat_unit!(mb_repeat_1_9_8, 1, 9, 8);
+// @unit name=mb_repeat_60_4_1 props=C16 kind=bounded bound=prefix60_slice4_times1 fns=MutableBuffer::repeat_slice_n_times,MutableBuffer::try_repeat_slice_n_times tier=quick mem=2 timeout=200
+mb_repeat_unit!(mb_repeat_60_4_1, 60, 4, 1);
+
+// Contract (C16): n = 0 appends nothing and changes nothing.
+// @unit name=mb_repeat_zero props=C16 kind=bounded bound=prefix3_slice3_times0 fns=MutableBuffer::repeat_slice_n_times,MutableBuffer::try_repeat_slice_n_times tier=quick mem=2 timeout=120
+#[kani::proof]
+#[kani::unwind(8)]
+fn mb_repeat_zero() {
+    let a: [u8; 3] = kani::any();
+    let mut m = MutableBuffer::new(0);
+    m.extend_from_slice(&a);
+    let c = m.capacity();
+    m.repeat_slice_n_times(&a, 0);
+    let e: [u8; 0] = [];
+    m.repeat_slice_n_times(&e, 7);
+    assert!(m.len() == 3 && m.capacity() == c && same(m.as_slice(), &a, 0, 3));
+    kani::cover!(true);
+}
+
+// Contract (C16): building from iterators of native values — `FromIterator<i32>`, `Extend<i32>`
+// (extend_from_iter: a size-hinted fast path followed by per-item push) and the unsafe
+// `from_trusted_len_iter` with a correct length — yields exactly the values' bytes in order; an
+// `Extend` keeps the existing prefix. (20 i32 = 80 bytes: crosses the first 64-byte capacity.)
+// @unit name=mb_from_iter_i32 props=C16 kind=bounded bound=20_i32_plus_3_extended fns=MutableBuffer::from_iter,MutableBuffer::extend,MutableBuffer::extend_from_iter,MutableBuffer::from_trusted_len_iter tier=quick mem=3 timeout=300
+#[kani::proof]
+#[kani::unwind(22)]
+fn mb_from_iter_i32() {
+    let v: [i32; 20] = kani::any();
+    let w: [i32; 3] = kani::any();
+    let i: usize = kani::any();
+    kani::assume(i < 23);
+    let want = if i < 20 { v[i] } else { w[i - 20] };
+    if kani::any() {
+        let mut m: MutableBuffer = v.iter().copied().collect();
+        assert!(m.len() == 80 && inv(&m));
+        m.extend(w.iter().copied());
+        assert!(m.len() == 92 && inv(&m));
+        assert!(m.typed_data::<i32>()[i] == want);
+        kani::cover!(i >= 20);
+    } else {
+        let m = unsafe { MutableBuffer::from_trusted_len_iter(v.iter().copied()) };
+        assert!(m.len() == 80 && inv(&m));
+        if i < 20 {
+            assert!(m.typed_data::<i32>()[i] == want);
+        }
+        kani::cover!(i == 19);
+    }
+}
+
+// Contract (C16): `Extend` from an iterator whose size_hint lower bound is 0 (a `filter`): nothing can
+// be pre-reserved, so the items first fill the existing capacity through the raw-pointer fast path of
+// `extend_from_iter` (16 i32 into the 64 bytes of `new(64)`) and the remaining 4 go through the
+// per-item `push` path, which reallocates. All 20 values arrive in order; inv holds.
+// @unit name=mb_extend_iter_unsized props=C16 kind=bounded bound=cap64_then_20_i32_from_unsized_iterator fns=MutableBuffer::extend,MutableBuffer::extend_from_iter,MutableBuffer::push tier=quick mem=3 timeout=400
+#[kani::proof]
+#[kani::unwind(22)]
+fn mb_extend_iter_unsized() {
+    let v: [i32; 20] = kani::any();
+    let mut m = MutableBuffer::new(64);
+    let (c0, p0) = (m.capacity(), m.as_ptr());
+    m.extend(v.iter().copied().filter(|_| true));
+    assert!(m.len() == 80 && inv(&m) && c0 == 64);
+    let i: usize = kani::any();
+    kani::assume(i < 20);
+    assert!(m.typed_data::<i32>()[i] == v[i]);
+    kani::cover!(m.capacity() == 128 && m.as_ptr() != p0); // the push path reallocated
+    kani::cover!(i == 15);
+    kani::cover!(i == 16);
+}
+
+// ---- C19 bit packing units ----
+// (self-contained section: helper names are prefixed c19_ and nothing outside this section is used
+//  except `use super::*;` above)
+
+/// bit i of a little-endian bit-packed byte sequence (Arrow validity/boolean layout)
+fn c19_bit(s: &[u8], i: usize) -> bool { (s[i / 8] >> (i % 8)) & 1 == 1 }
+
+fn c19_collect_bool_grid<const LEN: usize>() {
+    let m: [bool; LEN] = kani::any();
+    let mut calls = 0usize;
+    let buf = MutableBuffer::collect_bool(LEN, |i| {
+        assert!(i == calls); // indexes are presented in order 0, 1, .., len-1, each exactly once
+        calls += 1;
+        m[i]
+    });
+    assert!(calls == LEN);
+    assert!(buf.len() == (LEN + 7) / 8);
+    if LEN > 0 {
+        let i: usize = kani::any();
+        kani::assume(i < LEN);
+        assert!(c19_bit(buf.as_slice(), i) == m[i]);
+        kani::cover!(m[i] && i == LEN - 1);
+        kani::cover!(!m[i] && i >= 64 * (LEN / 64) && LEN % 64 != 0);
+    }
+    kani::cover!(buf.len() == (LEN + 7) / 8);
+}
+// Contract (C19) MutableBuffer::collect_bool(len, f): f is invoked with 0, 1, .., len-1 in this order,
+// each exactly once; the result has exactly ceil(len/8) bytes and packed bit i == f(i) for every
+// i < len (model: an arbitrary array of len booleans), across the 64-bit chunk boundary.
+// @unit name=c19_collect_bool_0 props=C19 kind=bounded bound=grid_len=0 fns=MutableBuffer::collect_bool tier=thorough timeout=300 note=not_confirmed_under_load
+#[kani::proof]
+#[kani::unwind(66)]
+fn c19_collect_bool_0() { c19_collect_bool_grid::<0>() }
+// @unit name=c19_collect_bool_1 props=C19 kind=bounded bound=grid_len=1 fns=MutableBuffer::collect_bool tier=thorough timeout=300 note=not_confirmed_under_load
+#[kani::proof]
+#[kani::unwind(66)]
+fn c19_collect_bool_1() { c19_collect_bool_grid::<1>() }
+// @unit name=c19_collect_bool_7 props=C19 kind=bounded bound=grid_len=7 fns=MutableBuffer::collect_bool tier=thorough timeout=300 note=not_confirmed_under_load
+#[kani::proof]
+#[kani::unwind(66)]
+fn c19_collect_bool_7() { c19_collect_bool_grid::<7>() }
+// @unit name=c19_collect_bool_63 props=C19 kind=bounded bound=grid_len=63 fns=MutableBuffer::collect_bool tier=thorough timeout=300 note=not_confirmed_under_load
+#[kani::proof]
+#[kani::unwind(66)]
+fn c19_collect_bool_63() { c19_collect_bool_grid::<63>() }
+// @unit name=c19_collect_bool_64 props=C19 kind=bounded bound=grid_len=64 fns=MutableBuffer::collect_bool tier=thorough timeout=300 note=not_confirmed_under_load
+#[kani::proof]
+#[kani::unwind(66)]
+fn c19_collect_bool_64() { c19_collect_bool_grid::<64>() }
+// @unit name=c19_collect_bool_65 props=C19 kind=bounded bound=grid_len=65 fns=MutableBuffer::collect_bool tier=thorough timeout=300 note=not_confirmed_under_load
+#[kani::proof]
+#[kani::unwind(67)]
+fn c19_collect_bool_65() { c19_collect_bool_grid::<65>() }
+// @unit name=c19_collect_bool_70 props=C19 kind=bounded bound=grid_len=70 fns=MutableBuffer::collect_bool tier=thorough timeout=300 note=not_confirmed_under_load
+#[kani::proof]
+#[kani::unwind(72)]
+fn c19_collect_bool_70() { c19_collect_bool_grid::<70>() }
+// @unit name=c19_collect_bool_127 props=C19 kind=bounded bound=grid_len=127 fns=MutableBuffer::collect_bool tier=thorough timeout=300 note=not_confirmed_under_load
+#[kani::proof]
+#[kani::unwind(129)]
+fn c19_collect_bool_127() { c19_collect_bool_grid::<127>() }
+// @unit name=c19_collect_bool_128 props=C19 kind=bounded bound=grid_len=128 fns=MutableBuffer::collect_bool tier=thorough timeout=300 note=not_confirmed_under_load
+#[kani::proof]
+#[kani::unwind(130)]
+fn c19_collect_bool_128() { c19_collect_bool_grid::<128>() }
+// @unit name=c19_collect_bool_129 props=C19 kind=bounded bound=grid_len=129 fns=MutableBuffer::collect_bool tier=thorough timeout=300 note=not_confirmed_under_load
+#[kani::proof]
+#[kani::unwind(131)]
+fn c19_collect_bool_129() { c19_collect_bool_grid::<129>() }
+// @unit name=c19_collect_bool_200 props=C19 kind=bounded bound=grid_len=200 fns=MutableBuffer::collect_bool tier=thorough timeout=300 note=not_confirmed_under_load
+#[kani::proof]
+#[kani::unwind(202)]
+fn c19_collect_bool_200() { c19_collect_bool_grid::<200>() }
+
+fn c19_from_iter_bool_grid<const LEN: usize>() {
+    let m: [bool; LEN] = kani::any();
+    let buf = unsafe { MutableBuffer::from_trusted_len_iter_bool(m.iter().copied()) };
+    assert!(buf.len() == (LEN + 7) / 8);
+    if LEN > 0 {
+        let i: usize = kani::any();
+        kani::assume(i < LEN);
+        assert!(c19_bit(buf.as_slice(), i) == m[i]);
+        kani::cover!(m[i] && i == LEN - 1);
+        kani::cover!(!m[i] && i == 0);
+    }
+    kani::cover!(buf.len() == (LEN + 7) / 8);
+}
+// Contract (C19) MutableBuffer::from_trusted_len_iter_bool(iter) for an iterator with an exact size hint:
+// exactly ceil(len/8) bytes, packed bit i == i-th item of the iterator, for every i < len.
+// @unit name=c19_from_trusted_len_iter_bool_0 props=C19 kind=bounded bound=grid_len=0 fns=MutableBuffer::from_trusted_len_iter_bool,MutableBuffer::collect_bool tier=thorough timeout=300 note=not_confirmed_under_load
+#[kani::proof]
+#[kani::unwind(66)]
+fn c19_from_trusted_len_iter_bool_0() { c19_from_iter_bool_grid::<0>() }
+// @unit name=c19_from_trusted_len_iter_bool_9 props=C19 kind=bounded bound=grid_len=9 fns=MutableBuffer::from_trusted_len_iter_bool,MutableBuffer::collect_bool tier=thorough timeout=300 note=not_confirmed_under_load
+#[kani::proof]
+#[kani::unwind(66)]
+fn c19_from_trusted_len_iter_bool_9() { c19_from_iter_bool_grid::<9>() }
+// @unit name=c19_from_trusted_len_iter_bool_65 props=C19 kind=bounded bound=grid_len=65 fns=MutableBuffer::from_trusted_len_iter_bool,MutableBuffer::collect_bool tier=thorough timeout=300 note=not_confirmed_under_load
+#[kani::proof]
+#[kani::unwind(67)]
+fn c19_from_trusted_len_iter_bool_65() { c19_from_iter_bool_grid::<65>() }
+// @unit name=c19_from_trusted_len_iter_bool_128 props=C19 kind=bounded bound=grid_len=128 fns=MutableBuffer::from_trusted_len_iter_bool,MutableBuffer::collect_bool tier=thorough timeout=300 note=not_confirmed_under_load
+#[kani::proof]
+#[kani::unwind(130)]
+fn c19_from_trusted_len_iter_bool_128() { c19_from_iter_bool_grid::<128>() }
+// @unit name=c19_from_trusted_len_iter_bool_130 props=C19 kind=bounded bound=grid_len=130 fns=MutableBuffer::from_trusted_len_iter_bool,MutableBuffer::collect_bool tier=thorough timeout=300 note=not_confirmed_under_load
+#[kani::proof]
+#[kani::unwind(132)]
+fn c19_from_trusted_len_iter_bool_130() { c19_from_iter_bool_grid::<130>() }
+
+fn c19_extend_bool_grid<const OFF: usize, const LEN: usize, const NB: usize>() {
+    let old: [u8; NB] = kani::any();
+    let m: [bool; LEN] = kani::any();
+    let mut buf = MutableBuffer::new(0);
+    buf.extend_from_slice(&old);
+    unsafe { buf.extend_bool_trusted_len(m.iter().copied(), OFF) };
+    let end = OFF + LEN;
+    let end_bytes = (end + 7) / 8;
+    assert!(buf.len() == if NB > end_bytes { NB } else { end_bytes });
+    let i: usize = kani::any();
+    kani::assume(i < 8 * buf.len());
+    let got = c19_bit(buf.as_slice(), i);
+    if i < OFF {
+        assert!(got == c19_bit(&old, i)); // existing bits below `offset` are preserved
+        kani::cover!(got);
+    } else if i < end {
+        assert!(got == m[i - OFF]); // the written range is exactly the iterator's values, whatever was there
+        kani::cover!(got && i < 8 * NB && !c19_bit(&old, i));
+        kani::cover!(!got && i < 8 * NB && c19_bit(&old, i));
+        kani::cover!(got && i == end - 1);
+    } else if LEN > 0 && i < 8 * end_bytes {
+        assert!(!got); // "All bits not written to (but readable due to byte alignment) will be zeroed out"
+    } else if LEN > 0 {
+        assert!(got == c19_bit(&old, i)); // whole bytes after the written range are untouched
+    } else {
+        assert!(got == c19_bit(&old, i)); // nothing to append: nothing changes
+    }
+    kani::cover!(buf.len() == end_bytes);
+}
+// Contract (C19) MutableBuffer::extend_bool_trusted_len(iter, offset), offset <= 8*len(), iterator with
+// exact size hint, old bytes fully symbolic (also at and after `offset`: the call may point INTO
+// existing non-zero data): afterwards len() == max(old len, ceil((offset+n)/8)); every bit below
+// offset is unchanged; bit offset+k is the k-th item (independent of the old contents); when n > 0
+// the bits between offset+n and the end of that byte are zero; whole bytes after it are unchanged.
+// @unit name=c19_extend_bool_3_70_1 props=C19 kind=bounded bound=grid_(offset,items,old_bytes)=(3,70,1) fns=MutableBuffer::extend_bool_trusted_len tier=thorough timeout=600 note=not_confirmed_under_load
+#[kani::proof]
+#[kani::unwind(73)]
+fn c19_extend_bool_3_70_1() { c19_extend_bool_grid::<3, 70, 1>() }
+// @unit name=c19_extend_bool_1_63_12 props=C19 kind=bounded bound=grid_(offset,items,old_bytes)=(1,63,12) fns=MutableBuffer::extend_bool_trusted_len tier=thorough timeout=600 note=not_confirmed_under_load
+#[kani::proof]
+#[kani::unwind(67)]
+fn c19_extend_bool_1_63_12() { c19_extend_bool_grid::<1, 63, 12>() }
+// @unit name=c19_extend_bool_0_64_0 props=C19 kind=bounded bound=grid_(offset,items,old_bytes)=(0,64,0) fns=MutableBuffer::extend_bool_trusted_len tier=thorough timeout=600 note=not_confirmed_under_load
+#[kani::proof]
+#[kani::unwind(67)]
+fn c19_extend_bool_0_64_0() { c19_extend_bool_grid::<0, 64, 0>() }
+// @unit name=c19_extend_bool_0_0_0 props=C19 kind=bounded bound=grid_(offset,items,old_bytes)=(0,0,0) fns=MutableBuffer::extend_bool_trusted_len tier=thorough timeout=600 note=not_confirmed_under_load
+#[kani::proof]
+#[kani::unwind(67)]
+fn c19_extend_bool_0_0_0() { c19_extend_bool_grid::<0, 0, 0>() }
+// @unit name=c19_extend_bool_5_0_2 props=C19 kind=bounded bound=grid_(offset,items,old_bytes)=(5,0,2) fns=MutableBuffer::extend_bool_trusted_len tier=thorough timeout=600 note=not_confirmed_under_load
+#[kani::proof]
+#[kani::unwind(67)]
+fn c19_extend_bool_5_0_2() { c19_extend_bool_grid::<5, 0, 2>() }
+// @unit name=c19_extend_bool_3_5_1 props=C19 kind=bounded bound=grid_(offset,items,old_bytes)=(3,5,1) fns=MutableBuffer::extend_bool_trusted_len tier=thorough timeout=600 note=not_confirmed_under_load
+#[kani::proof]
+#[kani::unwind(67)]
+fn c19_extend_bool_3_5_1() { c19_extend_bool_grid::<3, 5, 1>() }
+// @unit name=c19_extend_bool_3_2_3 props=C19 kind=bounded bound=grid_(offset,items,old_bytes)=(3,2,3) fns=MutableBuffer::extend_bool_trusted_len tier=thorough timeout=600 note=not_confirmed_under_load
+#[kani::proof]
+#[kani::unwind(67)]
+fn c19_extend_bool_3_2_3() { c19_extend_bool_grid::<3, 2, 3>() }
+// @unit name=c19_extend_bool_61_10_8 props=C19 kind=bounded bound=grid_(offset,items,old_bytes)=(61,10,8) fns=MutableBuffer::extend_bool_trusted_len tier=thorough timeout=600 note=not_confirmed_under_load
+#[kani::proof]
+#[kani::unwind(67)]
+fn c19_extend_bool_61_10_8() { c19_extend_bool_grid::<61, 10, 8>() }
+// @unit name=c19_extend_bool_61_10_12 props=C19 kind=bounded bound=grid_(offset,items,old_bytes)=(61,10,12) fns=MutableBuffer::extend_bool_trusted_len tier=thorough timeout=600 note=not_confirmed_under_load
+#[kani::proof]
+#[kani::unwind(67)]
+fn c19_extend_bool_61_10_12() { c19_extend_bool_grid::<61, 10, 12>() }
+// @unit name=c19_extend_bool_64_130_8 props=C19 kind=bounded bound=grid_(offset,items,old_bytes)=(64,130,8) fns=MutableBuffer::extend_bool_trusted_len tier=thorough timeout=600 note=not_confirmed_under_load
+#[kani::proof]
+#[kani::unwind(133)]
+fn c19_extend_bool_64_130_8() { c19_extend_bool_grid::<64, 130, 8>() }
+// @unit name=c19_extend_bool_7_200_1 props=C19 kind=bounded bound=grid_(offset,items,old_bytes)=(7,200,1) fns=MutableBuffer::extend_bool_trusted_len tier=thorough timeout=600 note=not_confirmed_under_load
+#[kani::proof]
+#[kani::unwind(203)]
+fn c19_extend_bool_7_200_1() { c19_extend_bool_grid::<7, 200, 1>() }
+// @unit name=c19_extend_bool_60_4_8 props=C19 kind=bounded bound=grid_(offset,items,old_bytes)=(60,4,8) fns=MutableBuffer::extend_bool_trusted_len tier=thorough timeout=600 note=not_confirmed_under_load
+#[kani::proof]
+#[kani::unwind(67)]
+fn c19_extend_bool_60_4_8() { c19_extend_bool_grid::<60, 4, 8>() }
+// @unit name=c19_extend_bool_8_56_9 props=C19 kind=bounded bound=grid_(offset,items,old_bytes)=(8,56,9) fns=MutableBuffer::extend_bool_trusted_len tier=thorough timeout=600 note=not_confirmed_under_load
+#[kani::proof]
+#[kani::unwind(67)]
+fn c19_extend_bool_8_56_9() { c19_extend_bool_grid::<8, 56, 9>() }
+// @unit name=c19_extend_bool_63_1_8 props=C19 kind=bounded bound=grid_(offset,items,old_bytes)=(63,1,8) fns=MutableBuffer::extend_bool_trusted_len tier=thorough timeout=600 note=not_confirmed_under_load
+#[kani::proof]
+#[kani::unwind(67)]
+fn c19_extend_bool_63_1_8() { c19_extend_bool_grid::<63, 1, 8>() }
+// @unit name=c19_extend_bool_65_127_30 props=C19 kind=bounded bound=grid_(offset,items,old_bytes)=(65,127,30) fns=MutableBuffer::extend_bool_trusted_len tier=thorough timeout=600 note=not_confirmed_under_load
+#[kani::proof]
+#[kani::unwind(130)]
+fn c19_extend_bool_65_127_30() { c19_extend_bool_grid::<65, 127, 30>() }
+// @unit name=c19_extend_bool_9_7_2 props=C19 kind=bounded bound=grid_(offset,items,old_bytes)=(9,7,2) fns=MutableBuffer::extend_bool_trusted_len tier=thorough timeout=600 note=not_confirmed_under_load
+#[kani::proof]
+#[kani::unwind(67)]
+fn c19_extend_bool_9_7_2() { c19_extend_bool_grid::<9, 7, 2>() }
+// @unit name=c19_extend_bool_0_70_16 props=C19 kind=bounded bound=grid_(offset,items,old_bytes)=(0,70,16) fns=MutableBuffer::extend_bool_trusted_len tier=thorough timeout=600 note=not_confirmed_under_load
+#[kani::proof]
+#[kani::unwind(73)]
+fn c19_extend_bool_0_70_16() { c19_extend_bool_grid::<0, 70, 16>() }
+// @unit name=c19_extend_bool_13_3_2 props=C19 kind=bounded bound=grid_(offset,items,old_bytes)=(13,3,2) fns=MutableBuffer::extend_bool_trusted_len tier=thorough timeout=600 note=not_confirmed_under_load
+#[kani::proof]
+#[kani::unwind(67)]
+fn c19_extend_bool_13_3_2() { c19_extend_bool_grid::<13, 3, 2>() }
+// @unit name=c19_extend_bool_5_130_20 props=C19 kind=bounded bound=grid_(offset,items,old_bytes)=(5,130,20) fns=MutableBuffer::extend_bool_trusted_len tier=thorough timeout=600 note=not_confirmed_under_load
+#[kani::proof]
+#[kani::unwind(133)]
+fn c19_extend_bool_5_130_20() { c19_extend_bool_grid::<5, 130, 20>() }
+// ---- end of C19 bit packing units ----
